@@ -25,7 +25,7 @@ Definition t2_b (bs : list obs) : bool := stopped_followed (obs_events bs).
 
 (* T3 on an observed log *)
 Definition t3_b (ins : list input) (bs : list obs) : bool :=
-  list_eqb Z.eqb (announced (obs_events bs)) (expected_announcements None ins).
+  list_eqb Z.eqb (announced (obs_events bs)) (expected_announcements false None ins).
 
 (* T5 invariant after every step of an observed run *)
 Definition agrees_b (req : gst) (lc : option gst) (latch : bool) : bool :=
@@ -77,12 +77,16 @@ Fixpoint t1_b (req : gst) (ins : list input) (bs : list obs) : bool :=
 Definition has_tags (b : obs) : bool :=
   existsb (fun e => match e with OTags _ => true | _ => false end) (b_evs b).
 
-Fixpoint t4a_b (pend : bool) (ins : list input) (bs : list obs) : bool :=
+Fixpoint t4a_b (cb pend : bool) (ins : list input) (bs : list obs) : bool :=
   match ins, bs with
   | [], [] => true
   | i :: ins', b :: bs' =>
       match i with StreamStart => true | _ => negb (pend && has_tags b) end
-      && t4a_b (match i with SetUri _ _ => true | StreamStart => false | _ => pend end) ins' bs'
+      && t4a_b (cb_after cb i)
+               (match sets_uri cb i with
+                | Some _ => true
+                | None => match i with StreamStart => false | _ => pend end
+                end) ins' bs'
   | _, _ => false
   end.
 
@@ -90,7 +94,7 @@ Fixpoint t4a_b (pend : bool) (ins : list input) (bs : list obs) : bool :=
 Definition monitor_code (c : list input * list obs) : Z :=
   let '(ins, bs) := c in
   (if t2_b bs then 0 else 1) + (if t3_b ins bs then 0 else 2) + (if t5_b NULL None ins bs then 0 else 4)
-  + (if t1_b NULL ins bs then 0 else 8) + (if t4a_b false ins bs then 0 else 16).
+  + (if t1_b NULL ins bs then 0 else 8) + (if t4a_b false false ins bs then 0 else 16).
 
 (* the model's own observation of a run *)
 Definition model_obs_step (w : world) (i : input) : obs :=
